@@ -54,12 +54,19 @@ pub struct ItemReq {
     pub index_map: BTreeMap<String, String>,
     #[serde(default)]
     pub binop_map: BTreeMap<String, String>,
+    /// R-const: name of a module-level constant -> function returning its (extracted) value
+    #[serde(default)]
+    pub const_map: BTreeMap<String, String>,
 }
 
 #[derive(Deserialize, Default, Clone)]
 pub struct ClosureReq {
     /// "name: Type" per parameter (the name must equal the source parameter's name)
     pub params: Vec<String>,
+    /// if set: the closure is let-bound under this name just before the statement it occurs in
+    /// (closure construction has no effect; ghost code can then mention the closure)
+    #[serde(default)]
+    pub bind: Option<String>,
 }
 
 #[derive(Deserialize, Default, Clone)]
@@ -134,6 +141,21 @@ struct Found {
 
 fn find_fn(file: &File, req: &ItemReq) -> std::result::Result<Found, String> {
     let mut found: Vec<Found> = vec![];
+    if req.kind == "const" {
+        for item in &file.items {
+            if let Item::Const(c) = item {
+                if c.ident == req.name {
+                    let e = &c.expr;
+                    let ty = &c.ty;
+                    let id = &c.ident;
+                    let sig: Signature = parse_quote!( fn #id() -> #ty );
+                    let block: Block = parse_quote!({ #e });
+                    return Ok(Found { sig, block, line_start: c.const_token.span.start().line, line_end: c.semi_token.span.end().line });
+                }
+            }
+        }
+        return Err(format!("lost anchor: const `{}` not found", req.name));
+    }
     for item in &file.items {
         match item {
             Item::Fn(f) if req.impl_self.is_none() && req.in_trait.is_none() => {
@@ -241,6 +263,7 @@ struct Marker<'a> {
     n_closures: usize,
     closures: &'a BTreeMap<String, ClosureReq>,
     errors: Vec<String>,
+    pending: Vec<(proc_macro2::Ident, Expr)>,
 }
 impl<'a> Marker<'a> {
     fn label(&mut self) -> Label {
@@ -250,6 +273,19 @@ impl<'a> Marker<'a> {
     }
 }
 impl<'a> VisitMut for Marker<'a> {
+    fn visit_block_mut(&mut self, b: &mut Block) {
+        let outer = std::mem::take(&mut self.pending);
+        let mut out: Vec<Stmt> = Vec::with_capacity(b.stmts.len());
+        for mut s in b.stmts.drain(..) {
+            self.visit_stmt_mut(&mut s);
+            for (name, cl) in self.pending.drain(..) {
+                out.push(parse_quote!( let #name = #cl; ));
+            }
+            out.push(s);
+        }
+        b.stmts = out;
+        self.pending = outer;
+    }
     fn visit_expr_mut(&mut self, e: &mut Expr) {
         match e {
             Expr::ForLoop(l) => {
@@ -323,7 +359,19 @@ impl<'a> VisitMut for Marker<'a> {
             }
             _ => {}
         }
+        let bind_name: Option<String> = if let Expr::Closure(_) = e {
+            self.closures.get(&self.n_closures.to_string()).and_then(|c| c.bind.clone())
+        } else {
+            None
+        };
+        let my_index = self.n_closures;
         visit_mut::visit_expr_mut(self, e);
+        if let Some(nm) = bind_name {
+            let _ = my_index;
+            let id = proc_macro2::Ident::new(&nm, proc_macro2::Span::call_site());
+            let cl = std::mem::replace(e, parse_quote!( #id ));
+            self.pending.push((id, cl));
+        }
     }
 }
 
@@ -537,6 +585,7 @@ fn extract_fn(file: &File, req: &ItemReq, resp: &mut ItemResp) -> std::result::R
     let mut rw = Rewriter::new(enabled);
     rw.index_map = req.index_map.clone();
     rw.binop_map = req.binop_map.clone();
+    rw.const_map = req.const_map.clone();
     rw.visit_block_mut(&mut block);
     resp.rewrites = pre_log;
     resp.rewrites.extend(std::mem::take(&mut rw.log));
@@ -546,7 +595,7 @@ fn extract_fn(file: &File, req: &ItemReq, resp: &mut ItemResp) -> std::result::R
     }
 
     // 2. markers
-    let mut mk = Marker { n_loops: 0, n_closures: 0, closures: &req.closures, errors: vec![] };
+    let mut mk = Marker { n_loops: 0, n_closures: 0, closures: &req.closures, errors: vec![], pending: vec![] };
     mk.visit_block_mut(&mut block);
     resp.n_loops = mk.n_loops;
     resp.n_closures = mk.n_closures;
@@ -632,7 +681,7 @@ fn main() {
         let r = match parsed {
             Err(e) => Err(e.clone()),
             Ok(file) => match it.kind.as_str() {
-                "fn" => extract_fn(file, it, &mut resp),
+                "fn" | "const" => extract_fn(file, it, &mut resp),
                 "struct" => extract_struct(file, it, &mut resp),
                 k => Err(format!("unknown kind {}", k)),
             },
